@@ -21,6 +21,8 @@ structure Call where
   params : List String
   args : List Val
   lines : List (List String) := []     -- event lines (words without the thread id), newest first
+  gpctr0 : Val := .int 1               -- value of gp.ctr when the call began
+  search : Bool := false               -- the IR has oracle values the trace does not show (list operations): search for them
   deriving Inhabited
 
 structure Thr where
@@ -36,6 +38,8 @@ structure D where
   cov : List (String × Nat) := []
   compared : Nat := 0
   events : Nat := 0
+  gpctr : Val := .int 1                -- last value stored to gp.ctr by anyone (plain-read by the updater under the gp lock)
+  searchRuns : Nat := 0
 
 def D.getT (d : D) (t : Nat) : Thr := ((d.thr.find? (·.1 == t)).map (·.2)).getD {}
 def D.setT (d : D) (t : Nat) (x : Thr) : D := { d with thr := (t, x) :: d.thr.filter (·.1 != t) }
@@ -62,7 +66,7 @@ def valOf (s : String) : Except String Val :=
   if s.startsWith "&" then
     match objOfName (s.drop 1).toString with
     | some k => .ok (.ptr (.obj k))
-    | none => .error s!"unparsed pointer value {s}"
+    | none => .ok (.ptr (.glob (s.drop 1).toString))        -- an address the scenario did not name (stack objects): symbolic
   else (intOf s).map fun n => if n == 0 then Val.int 0 else Val.int n
 
 /-- trace spelling of a value; pointers-vs-integers: the harness prints NULL as 0 -/
@@ -70,11 +74,16 @@ def valStr (mode : String := "") : Val → String
   | .int n => toString n
   | .ptr (.obj k) => "&" ++ (if mode == "lfq" then objNameLfq k else objName k)
   | .ptr (.field (.obj k) "node") => "&" ++ objName k
+  | .ptr (.glob g) => if g.startsWith "stack" then s!"&{g}" else s!"&?{g}"
   | .ptr l => s!"&?{repr l}"
 
 def locStr (mode : String) (r : Nat) : Loc → String
   | .field (.glob g) f =>
-    if g == s!"urcu_{flavor mode}_gp" then s!"gp.{f}" else s!"{g}.{f}"
+    if g == s!"urcu_{flavor mode}_gp" || g == "rcu_gp" then s!"gp.{f}"
+    else if g.startsWith "&" || g.startsWith "stack" then s!"?{g}.{f}"
+    else s!"{g}.{f}"
+  | .field (.field (.glob "gp_waiters") "stack") "head" => "waiters.head"
+  | .glob g => if g.startsWith "rcu_" then (g.drop 4).toString else g
   | .field (.tls g) f =>
     if g == s!"urcu_{flavor mode}_reader" then s!"reader{r}.{f}" else s!"tls:{g}.{f}"
   | .field (.obj k) f =>
@@ -101,14 +110,32 @@ def evWords (mode : String) (r : Nat) : Event → Option (List String)
   | .rmw p l a res mo => some [primStr p, locStr mode r l, valStr mode a, valStr mode res, toString mo]
   | .fence .relax => none
   | .fence p => some [primStr p]
-  | .ext "futex_async" (a :: _ :: n :: _) ret =>
+  | .ext "futex_noasync" (a :: .int 1 :: n :: _) ret =>
     some ["FUTEX_WAKE", (match a with | .ptr l => locStr mode r l | _ => "?"), s!"n={valStr mode n}", "->", valStr mode ret]
+  | .ext "futex_async" (a :: .int 1 :: n :: _) ret =>
+    some ["FUTEX_WAKE", (match a with | .ptr l => locStr mode r l | _ => "?"), s!"n={valStr mode n}", "->", valStr mode ret]
+  | .ext "futex_async" (a :: .int 0 :: v :: _) _ =>
+    some ["FUTEX_WAIT", (match a with | .ptr l => locStr mode r l | _ => "?"), s!"val={valStr mode v}"]
+  | .ext "futex_noasync" (a :: .int 0 :: v :: _) _ =>
+    some ["FUTEX_WAIT", (match a with | .ptr l => locStr mode r l | _ => "?"), s!"val={valStr mode v}"]
+  | .ext "errno" _ _ => none
+  | .ext "mutex_lock" [.ptr l] _ => some ["LOCK", locStr mode r l]
+  | .ext "mutex_unlock" [.ptr l] _ => some ["UNLOCK", locStr mode r l]
+  | .ext "membarrier" (c :: _) _ => some ["MBAR", s!"cmd={valStr mode c}"]
+  | .ext "cds_list_empty" _ _ => none
+  | .ext "cds_list_move" _ _ => none
+  | .ext "cds_list_splice" _ _ => none
+  | .ext "cds_list_for_each_entry_safe.first" _ _ => none
+  | .ext "cds_list_for_each_entry_safe.next" _ _ => none
   | .ext "poll" _ _ => some ["POLL"]
   | .ext "CDS_WFCQ_WAIT_SLEEP" _ _ => some ["POLL"]
   | .ext name _ _ => some ["EXT", name]
 
 /-- the oracle value a trace line delivers (value-returning accesses only) -/
 def oracleOf : List String → Except String (Option Val)
+  | ["LOCK", _] => .ok (some (.int 0))
+  | ["UNLOCK", _] => .ok (some (.int 0))
+  | ["MBAR", _] => .ok (some (.int 0))
   | ["FUTEX_WAKE", _, _, _, k] => (valOf k).map some
   | ["LD", _, v, _] => (valOf v).map some
   | ["XCHG", _, _, o, _] => (valOf o).map some
@@ -117,6 +144,49 @@ def oracleOf : List String → Except String (Option Val)
     if op ∈ ["ADD", "SUB", "OR", "AND", "ADDR", "SUBR"] then (valOf r).map some else .ok none
   | ["POLL"] => .ok (some (.int 0))
   | _ => .ok none
+
+/-- all oracle values a trace line delivers: a failing FUTEX_WAIT delivers the return value and then errno -/
+def oracleVals (ws : List String) : Except String (List Val) :=
+  match ws with
+  | ["FUTEX_WAIT", _, _, "->", r] =>
+    if r == "EAGAIN" then .ok [.int (-1), .int 11] else if r == "EINTR" then .ok [.int (-1), .int 4] else .ok [.int 0]
+  | _ => (oracleOf ws).map fun o => o.toList
+
+def isSyncLine (ws : List String) : Bool :=
+  match ws with
+  | op :: _ => op ∈ ["LOCK", "UNLOCK", "MBAR", "FUTEX_WAIT"]
+  | [] => false
+
+def symbolic (w : String) : Bool := w.contains '?'
+
+/-- words equal up to a consistent naming of the addresses the scenario did not name (`?sym` on the IR side, `stackN+off` in the trace) -/
+def unifyWord (b : List (String × String)) (g l : String) : Option (List (String × String)) :=
+  if g == l then some b
+  else
+    let g' := if g.startsWith "&" then (g.drop 1).toString else g
+    let l' := if l.startsWith "&" then (l.drop 1).toString else l
+    if g.startsWith "&" != l.startsWith "&" then none
+    else if symbolic g' && (l'.startsWith "stack") then
+      match b.find? (·.1 == g') with
+      | some (_, x) => if x == l' then some b else none
+      | none => some ((g', l') :: b)
+    else none
+
+def unifyLine (b : List (String × String)) (g l : List String) : Option (List (String × String)) :=
+  let l := if l.head? == some "FUTEX_WAIT" then l.take 3 else l
+  if g.length != l.length then none
+  else (g.zip l).foldlM (fun b (x, y) => unifyWord b x y) b
+
+/-- the longest matching prefix: number of lines matched, or the index of the first mismatch -/
+def unifyPrefix (got lines : List (List String)) : Except Nat Nat :=
+  let rec go (b : List (String × String)) (i : Nat) : List (List String) → List (List String) → Except Nat Nat
+    | [], _ => .ok i
+    | _ :: _, [] => .error i
+    | g :: gs, l :: ls =>
+      match unifyLine b g l with
+      | some b' => go b' (i+1) gs ls
+      | none => .error i
+  go [] 0 got lines
 
 def isEventLine (ws : List String) : Bool :=
   match ws with
@@ -133,6 +203,9 @@ def callSpec (d : D) (ws : List String) : Option (String × Stmt × List String 
     | some w => if (w.drop (key.length + 1)).toString == "1" then 1 else 0
     | none => 0
   match d.mode, ws with
+  | "gp-memb", ["sync"] => some ("memb.sync", «memb.synchronize_rcu», [], [])
+  | "gp-mb", ["sync"] => some ("mb.sync", «mb.synchronize_rcu», [], [])
+  | "gp-qsbr", ["sync"] => some ("qsbr.sync", «qsbr.urcu_qsbr_synchronize_rcu», [], [])
   | "gp-memb", ["lock"] => some ("memb.lock", «_urcu_memb_read_lock», [], [])
   | "gp-memb", ["unlock"] => some ("memb.unlock", «_urcu_memb_read_unlock», [], [])
   | "gp-mb", ["lock"] => some ("mb.lock", «_urcu_mb_read_lock», [], [])
@@ -186,10 +259,80 @@ def initPriv (d : D) (r : Nat) : List (Loc × Val) :=
    (.field (.tls s!"urcu_{fl}_reader") "ctr", .int 0),
    (.field (.tls s!"urcu_{fl}_reader") "waiting", .int 0),
    (.tls "urcu_bp_reader", .ptr (.obj r)), (.field (.obj r) "ctr", .int 0),
-   (.glob "&state", .int 0)]
+   (.glob "&state", .int 0),
+   (.glob s!"urcu_{fl}_has_sys_membarrier_private_expedited", .int (if d.cfgOf "membarrier" == "1" then 1 else 0)),
+   (.field (.glob "rcu_gp") "ctr", d.gpctr)]
+
+/-- depth-first search for the oracle values the trace does not show (answers of the list operations): the traced values are
+consumed in order, an untraced value is one of `choices`; a branch dies at the first event that differs from the trace -/
+partial def dfs (run : List Val → Except String Out) (got : Out → List (List String)) (evw : Event → Option (List String))
+    (lines : List (List String))
+    (complete : Bool) (choices : List Val) (inp tv : List Val) (budget : Nat) (best : Nat × String) :
+    Option (Out × Nat) × Nat × (Nat × String) :=
+  if budget == 0 then (none, 0, best) else
+  match run inp with
+  | .error e => (none, budget - 1, if best.1 == 0 then (0, "IR error: " ++ e) else best)
+  | .ok out =>
+    let g := got out
+    match unifyPrefix g lines with
+    | .error i =>
+      let msg := s!"event {i}: source IR gives {(g[i]?.map (" ".intercalate ·)).getD "(end)"}, compiled code did {(lines[i]?.map (" ".intercalate ·)).getD "(end)"}"
+      (none, budget - 1, if i ≥ best.1 then (i, msg) else best)
+    | .ok n =>
+      if out.ctl != .blocked then
+        if (n == lines.length && tv.isEmpty) || (!complete && tv.isEmpty) then (some (out, g.length), budget - 1, best)
+        else (none, budget - 1, if n ≥ best.1 then (n, s!"the source IR ends after {n} events (unused traced values: {tv.length}), the compiled call did {lines.length}") else best)
+      else if !complete && n == lines.length && tv.isEmpty then (some (out, g.length), budget - 1, best)
+      else
+        -- which access is waiting for a value?  probe it: the event that consumes the next value is events[m]
+        let m := out.events.length
+        let probe := match run (inp ++ [.int 0]) with
+          | .ok o' => o'.events[m]?
+          | .error _ => none
+        let cands : List (Val × List Val) := match probe with
+          | some e =>
+            if (evw e).isSome then (match tv with | v :: rest => [(v, rest)] | [] => [])       -- a traced access: the traced value
+            else match e with
+              | .ext name _ _ =>
+                if name ∈ ["cds_list_move", "cds_list_splice", "errno"] && name != "errno" then [(.int 0, tv)]   -- no result used
+                else if name == "errno" then (match tv with | v :: rest => [(v, rest)] | [] => [])
+                else choices.map (fun c => (c, tv))
+              | _ => choices.map (fun c => (c, tv))
+          | none => (match tv with | v :: rest => [(v, rest)] | [] => []) ++ choices.map (fun c => (c, tv))
+        cands.foldl (fun (acc : Option (Out × Nat) × Nat × (Nat × String)) (v, tv') => match acc with
+          | (some r, b, bs) => (some r, b, bs)
+          | (none, b, bs) => dfs run got evw lines complete choices (inp ++ [v]) tv' b bs) (none, budget - 1, best)
+
+def finishSearch (d : D) (t : Nat) (th : Thr) (c : Call) (complete : Bool) : Except String D := do
+  let lines := c.lines.reverse
+  let mut tv : List Val := []
+  for l in lines do
+    tv := tv ++ (← oracleVals l)
+  let priv0 := (if th.priv.isEmpty then initPriv d th.ridx else th.priv)
+  let gl : List Loc := [.field (.glob "rcu_gp") "ctr", .field (.glob s!"urcu_{flavor d.mode}_gp") "ctr"]
+  let priv0 := gl.map (fun l => (l, c.gpctr0)) ++ priv0.filter (fun p => !(gl.contains p.1))
+  let env : Env := { vars := bindParams c.params c.args, priv := privFn priv0 }
+  let choices : List Val := [.int 0, .int 1] ++ (List.range 8).map fun r => Val.ptr (.obj (r + 1))
+  let budget := 40000
+  let (res, left, best) := dfs (fun inp => exec 100000 c.fn env inp) (fun o => o.events.filterMap (evWords d.mode th.ridx))
+    (evWords d.mode th.ridx) lines complete
+    choices [] tv budget (0, "")
+  match res with
+  | some (out, n) =>
+    let keep := (carry d.mode th.ridx).filterMap fun l => (out.env.priv l).map fun v => (l, v)
+    let privB := if th.priv.isEmpty then initPriv d th.ridx else th.priv
+    let priv1 := keep ++ privB.filter fun p => !(keep.any (·.1 == p.1))
+    .ok ({ d with cov := bump d.cov (c.op ++ (if complete then "" else ":prefix")), compared := d.compared + 1, events := d.events + n,
+                  searchRuns := d.searchRuns + (budget - left) }.setT t { th with cur := none, priv := priv1 })
+  | none =>
+    if left == 0 then
+      .ok ({ d with cov := bump d.cov (c.op ++ ":search-budget") }.setT t { th with cur := none })
+    else
+      .error s!"{c.op}: no answers of the list operations make the source IR produce the {lines.length} events of the compiled call (search space exhausted after {budget - left} runs; furthest: {best.2})"
 
 /-- run the IR of a finished (or cut) call and compare -/
 def finish (d : D) (t : Nat) (th : Thr) (c : Call) (complete : Bool) : Except String D := do
+  if c.search then return ← finishSearch d t th c complete
   let lines := c.lines.reverse
   let mut inp : List Val := []
   for l in lines do
@@ -230,7 +373,8 @@ def drive (d : D) (ws : List String) : Except String D :=
         | some _ => .ok d        -- nested marker (wrapper inside a call): keep collecting
         | none =>
           match callSpec d c with
-          | some (op, fn, ps, as) => .ok (d.setT tid { th with cur := some { op := op, fn := fn, params := ps, args := as } })
+          | some (op, fn, ps, as) =>
+            .ok (d.setT tid { th with cur := some { op := op, fn := fn, params := ps, args := as, search := op.endsWith ".sync", gpctr0 := d.gpctr } })
           | none => .ok { d with cov := bump d.cov s!"skipped:{c.headD ""}" }
       | "RET" :: _ =>
         match th.cur with
@@ -239,10 +383,20 @@ def drive (d : D) (ws : List String) : Except String D :=
       | "SIG_ENTER" :: _ => .error "trace with signal handlers: not supported by drv_src (run the scenario with sig=0)"
       | ev =>
         match th.cur with
-        | some c => if isEventLine ev then .ok (d.setT tid { th with cur := some { c with lines := ev :: c.lines } }) else .ok d
+        | some c =>
+          let d := match ev with
+            | ["ST", "gp.ctr", v, _] => (match valOf v with | .ok x => { d with gpctr := x } | _ => d)
+            | ["LD", "gp.ctr", v, _] => (match valOf v with | .ok x => { d with gpctr := x } | _ => d)
+            | _ => d
+          -- the updater reads gp.ctr plainly under rcu_gp_lock: its private value is the global one when it got the lock
+          let c := if ev == ["LOCK", "gp_lock"] then { c with gpctr0 := d.gpctr } else c
+          if isEventLine ev || (c.search && isSyncLine ev) then .ok (d.setT tid { th with cur := some { c with lines := ev :: c.lines } })
+          else .ok (d.setT tid { th with cur := some c })
         | none =>
           -- a store to the thread's own carried word by an untranslated function (registration, synchronize_rcu of qsbr)
           match ev with
+          | ["ST", "gp.ctr", v, _] => (match valOf v with | .ok x => .ok { d with gpctr := x } | _ => .ok d)
+          | ["LD", "gp.ctr", v, _] => (match valOf v with | .ok x => .ok { d with gpctr := x } | _ => .ok d)
           | ["ST", loc, v, _] =>
             match (carry d.mode th.ridx).find? (fun l => locStr d.mode th.ridx l == loc), valOf v with
             | some l, .ok x =>
@@ -262,7 +416,7 @@ partial def loop (h : IO.FS.Stream) (d : D) (k : Nat) : IO UInt32 := do
   if line.isEmpty then
     match finishAll d with
     | .ok d =>
-      IO.println s!"OK lines={k} calls={d.compared} events={d.events} {showCov d.cov}"
+      IO.println s!"OK lines={k} calls={d.compared} events={d.events} searchruns={d.searchRuns} {showCov d.cov}"
       return 0
     | .error e =>
       IO.println s!"DIVERGE line {k} (end of trace) :: {e}"
